@@ -24,6 +24,7 @@ func NewTransientLockMap() *TransientLockMap {
 // Lock acquires the lock for the specified key and returns true, unless the context finishes before the lock could be
 // acquired, in which case false is returned.
 func (l *TransientLockMap) Lock(ctx context.Context, key string) bool {
+	verifPoint("lock.enter", key)
 	lock := func() *countedLock {
 		// If there is high lock contention, we could use a readonly lock to check if the lock is already in the map (and
 		// thus no map writes are necessary), but this is complicated enough as it is so we skip that optimization for now.
@@ -45,16 +46,21 @@ func (l *TransientLockMap) Lock(ctx context.Context, key string) bool {
 		lock.refcount++ // incremented while holding _map_ lock
 		return lock
 	}()
+	verifPoint("lock.afterRef", key)
 
 	if !lock.Lock(ctx) {
+		verifPoint("lock.cancelled", key)
 		l.returnLockObj(key, lock)
+		verifPoint("lock.returned", key)
 		return false
 	}
+	verifPoint("lock.acquired", key)
 	return true
 }
 
 // Unlock unlocks the lock for the specified key. Panics if the lock is not currently held.
 func (l *TransientLockMap) Unlock(key string) {
+	verifPoint("unlock.enter", key)
 	lock := func() *countedLock {
 		l.mu.Lock()
 		defer l.mu.Unlock()
@@ -65,9 +71,12 @@ func (l *TransientLockMap) Unlock(key string) {
 		}
 		return lock
 	}()
+	verifPoint("unlock.afterLookup", key)
 
 	lock.Unlock()
+	verifPoint("unlock.afterRelease", key)
 	l.returnLockObj(key, lock)
+	verifPoint("unlock.done", key)
 }
 
 // Run runs the given callback while holding the lock, unless the context finishes before the lock could be
